@@ -56,6 +56,5 @@ Example C12_nonvacuous :
   in_contract stream_buffer_size [RData [1; 2; 3]; RInterrupted; RInterrupted; RData d100; RData []; RHard 6] = true /\
   first_hard [RData [1; 2; 3]; RInterrupted; RInterrupted; RData d100; RData []; RHard 6] = None /\
   delivered [RData [1; 2; 3]; RInterrupted; RInterrupted; RData d100; RData []; RHard 6] = [1; 2; 3] ++ d100 /\
-  first_hard [RData d100; RInterrupted; RHard 6; RData d100] = Some 6 /\
-  stream_buffer_size = 1048576.
+  first_hard [RData d100; RInterrupted; RHard 6; RData d100] = Some 6.
 Proof. vm_compute. repeat split; reflexivity. Qed.
